@@ -19,7 +19,7 @@ pub fn gen_meta(rng: &mut Rng, img: &HImg, with_icc: bool) -> EncOpts {
         match rng.below(5) {
             0 => (*b"tEXt", b"Comment\0x".to_vec()),
             1 => (*b"zTXt", b"Key\0\0\x78\x9c\x03\x00\x00\x00\x00\x01".to_vec()),
-            2 => (*b"prVt", rng.bytes(6)),
+            2 => (*b"prVt", if rng.chance(1, 3) { vec![] } else { rng.bytes(6) }),
             3 => (*b"iTXt", b"Key\0\0\0\0\0text".to_vec()),
             _ => (*b"vpAg", rng.bytes(9)),
         }
@@ -34,7 +34,13 @@ pub fn gen_meta(rng: &mut Rng, img: &HImg, with_icc: bool) -> EncOpts {
         match rng.below(4) {
             0 => e.pre_plte.push((*b"sRGB", vec![rng.below(4) as u8])),
             1 => { let k = *rng.choose(&[0u64, 0, 1, 2, 6, 6]); e.pre_plte.push((*b"iCCP", make_iccp(&gen_profile(rng, k)))); }
-            2 => e.pre_plte.push((*b"iCCP", b"broken\0\0\x01\x02\x03".to_vec())),
+            // degenerate colour-space chunks (a decoder still sees the chunk): a profile that does not inflate, and
+            // the shortest possible chunks - nothing but the name
+            2 => match rng.below(4) {
+                0 => e.pre_plte.push((*b"iCCP", vec![])),
+                1 => e.pre_plte.push((*b"sRGB", vec![])),
+                _ => e.pre_plte.push((*b"iCCP", b"broken\0\0\x01\x02\x03".to_vec())),
+            },
             _ => {
                 // both (not allowed by the specification, but decoders see it): kept out of strict runs
             }
